@@ -530,8 +530,39 @@ func c12Random(s Src, tier string) *Case {
 
 // c12Systematic: every single operation after a two-key literal, and small
 // literals of every size, under identity / reverse / all rotations.
+// c12Cyclic: aliasing + write + nesting make cyclic objects reachable; reading,
+// listing and printing them must work (each property shown; how the repeated
+// object is abbreviated is free). Run in a fresh process: a Go stack overflow
+// cannot be recovered.
+func c12Cyclic() []*Case {
+	type cyc struct {
+		name, prog string
+		tokens     []string // must appear in the printed line after "@P"
+	}
+	P := KwPrint
+	cs := []cyc{
+		{"self", fmt.Sprintf("%s o = {alpha: 1};\no.self = o;\n%s \"@P\";\n%s o;\n%s o.self.self.alpha;\n%s %s(o);\n%s \"@DONE\";\n", KwVar, P, P, P, P, FnKeys, P), []string{"alpha:", "self:"}},
+		{"mutual", fmt.Sprintf("%s p = {beta: 2};\n%s q = {gamma: 3};\np.fwd = q;\nq.back = p;\n%s \"@P\";\n%s p;\n%s p.fwd.back.fwd.gamma;\n%s %s(p);\n%s \"@DONE\";\n", KwVar, KwVar, P, P, P, P, FnValues, P), []string{"beta:", "fwd:", "gamma:", "back:"}},
+		{"through-array", fmt.Sprintf("%s o = {list: [1, 2], delta: 4};\no.list[0] = o;\n%s \"@P\";\n%s o;\n%s o.list[0].delta;\n%s %s(o);\n%s \"@DONE\";\n", KwVar, P, P, P, P, FnValues, P), []string{"list:", "delta:"}},
+		{"repl-echo", "", nil},
+	}
+	var out []*Case
+	for _, c := range cs {
+		if c.prog == "" {
+			continue
+		}
+		cfg := scriptCfg(c.prog, "")
+		cfg.Budget = 2000000
+		k := &Case{Prop: "C12", Kind: "cyclic", Sig: "cyclic:" + c.name, Program: c.prog, Runs: []Run{{Role: "fresh-process:identity", Cfg: cfg}}, Notes: c.tokens}
+		k.Aux = &Aux{C12: &C12Expect{}}
+		out = append(out, k)
+	}
+	return out
+}
+
 func c12Systematic(tier string) []*Case {
 	var out []*Case
+	out = append(out, c12Cyclic()...)
 	for seedv := 0; seedv < 60; seedv++ {
 		src := &lcgSrc{x: uint64(seedv)*7919 + 17}
 		cs := generated(src, func(s Src) *Case { return c12Case(s, "quick", 4) })
@@ -571,6 +602,36 @@ func c12Eval(cs *Case, ctx *EvalCtx) []Violation {
 	obs := ctx.RunAll(cs)
 	ex := cs.Aux.C12
 	var vs []Violation
+	if cs.Kind == "cyclic" {
+		o := obs[0]
+		mk := func(class, msg string) {
+			vs = append(vs, Violation{Prop: "C12", Class: "C12/" + class, Sig: cs.Sig, Msg: msg, Run: 0})
+		}
+		switch {
+		case o.Res.Panic != "":
+			mk("host-panic", "printing / listing an object that (indirectly) contains itself killed the interpreter: "+o.Res.Panic)
+		case o.Res.Budget:
+			mk("no-termination", "step budget exceeded")
+		case o.FirstErr >= 0 || o.ExitStatus() != 0:
+			mk("unexpected-diagnostic", fmt.Sprintf("exit=%d stderr=%q", o.ExitStatus(), firstLine(o.Stderr)))
+		default:
+			ls := strings.Split(o.Stdout, "\n")
+			if len(ls) < 5 || ls[0] != "@P" || ls[len(ls)-2] != "@DONE" {
+				mk("output-truncated", fmt.Sprintf("stdout=%q", clip(o.Stdout)))
+			} else {
+				for _, t := range cs.Notes {
+					if !strings.Contains(ls[1], t) {
+						mk("print-missing-property", fmt.Sprintf("printing the object shows %q: %q is missing", clip(ls[1]), t))
+						break
+					}
+				}
+			}
+		}
+		if ctx.Stats != nil {
+			ctx.Stats.Count("reach.cyclic_object_printed", 1)
+		}
+		return vs
+	}
 	for i, o := range obs {
 		if v := c12CheckRun(cs, ex, i, o); v != nil {
 			vs = append(vs, *v)
